@@ -1,11 +1,11 @@
 PROPERTY = "C04"
 LEVEL = "proof"
 LEAN_MODULES = ["CifModel.Props.C04", "CifModel.Model.StoreSchema"]
-REQUIRED = ["CifModel.C04_inv_init", "CifModel.C04_inv_sql", "CifModel.C04_inv_step_partial", "CifModel.C04_inv_reachable_partial",
+REQUIRED = ["CifModel.C04_inv_init", "CifModel.C04_inv_sql", "CifModel.C04_inv_step", "CifModel.C04_inv_reachable",
             "CifModel.C04_inv_gives_loop_keys", "CifModel.names_returned_as_created", "CifModel.set_value_all_packets_or_new_scalar",
             "CifModel.remove_last_item_removes_loop", "CifModel.scalar_category_cannot_be_given",
-            "CifModel.scalar_category_cannot_be_taken_partial", "CifModel.destroy_removes_subtree_only", "CifModel.cifs_independent",
-            "CifModel.C04_cex_F30", "CifModel.C04_cex_F32",
+            "CifModel.scalar_category_cannot_be_taken", "CifModel.destroy_removes_subtree_only", "CifModel.cifs_independent",
+            "CifModel.C04_cex_F30", "CifModel.C04_cex_F34_pinned",
             "CifModel.Store.schema_tables_link", "CifModel.Store.schema_triggers_link", "CifModel.Store.schema_sql_link",
             "CifModel.Store.schema_messages_link", "CifModel.Store.C05_paths_link"]
 GEN = ["ErrCodes", "Schema"]
@@ -26,18 +26,14 @@ ASSUMPTIONS = [
     "the store's enumeration orders are not fixed by any property: observations are canonical (sorted) dumps",
 ]
 PARTIAL = [
-    "C04_inv_step_partial / C04_inv_reachable_partial: invariant preservation is proved for every op except cif_loop_set_category "
-    "(Db.setCategory's preservation of 'at most one scalar loop' is not proved)",
     "C04_refines_full is stated, not proved: refinement to Spec/DataModel.lean is carried by the corollaries proved on the model and by the "
-    "dump-level oracle of the correspondence run; it fails on the current tree for packets that omit items (open finding F30, C04_cex_F30) "
-    "and for set_category(scalar loop, NULL) (open finding F32, C04_cex_F32)",
+    "dump-level oracle of the correspondence run; it fails on the current tree for packets that omit items (open finding F30, C04_cex_F30)",
 ]
 LEVEL_TEXT = ("Proof (partial where stated): an executable relational model of the SQLite-backed store (every function of cif.c/container.c/loop.c/"
               "pktitr.c as the C's sequence of SQL statements and transaction macros) with a machine-checked invariant over ALL API histories "
               "by induction over the op list; schema facts re-extracted from the sources on every run and re-checked by kernel `decide`; "
               "model and real library compared on ~1500 (quick) / 12000 (thorough) random histories with a dump after every op.")
-LEVEL_NOTE = ("Invariant preservation excludes cif_loop_set_category; refinement to the documented data model is stated but not proved (two open "
-              "findings F30, F32 are genuine counterexamples). Trusted: Lean kernel, the schema translator, SQLite's enforcement of the schema, "
+LEVEL_NOTE = ("Refinement to the documented data model is stated but not proved (open finding F30 is a genuine counterexample). Trusted: Lean kernel, the schema translator, SQLite's enforcement of the schema, "
               "the executor/generator/oracle.")
 TECHNIQUE = "Lean 4 proof (invariant by induction over API histories) about an executable relational model tied to the sources by translated schema facts and differential execution"
 NOT_CLAIMED = "model being updated to follow /repo fix 95b7b25 (branch gF)"
